@@ -48,6 +48,9 @@ impl EntryMap {
     { unimplemented!() }
     #[verifier::external_body]
     pub fn is_empty(&self) -> (r: bool) ensures r == (self.m@.dom() =~= Set::<int>::empty()) { unimplemented!() }
+    // HashMap::contains_key (not used today; present so that a name-only test is decided)
+    #[verifier::external_body]
+    pub fn contains_key(&self, name: Name) -> (r: bool) ensures r == self.m@.contains_key(name.id) { unimplemented!() }
 }
 // the file system snapshot seen by DirList::obtain (ASSUMPTION: one consistent snapshot during a call; unreadable dir = empty listing)
 pub uninterp spec fn fs_entries(p: PathS) -> Map<int, Kind>;
